@@ -628,7 +628,7 @@ func registerIntrinsics(m *Machine) {
 			lo := tt.BvBin(OBvAnd, b, tt.BVConst(8, 15))
 			out = append(out, m.hexDigit(hi), m.hexDigit(lo))
 		}
-		return StringV{B: out}
+		return StringV{B: out, HexOf: bs}
 	}
 
 	// ---- time ----
